@@ -551,45 +551,54 @@ def parseXmcd (d : Bytes) : PyRes (Option Bytes) :=
       .ok (some (xmcdHdr (HabConsts.xmcdHeaderSize + cfgData.length) (ts.toNat / 16) (ii.toNat / 16) (ii.toNat % 16) ++ cfgData))
   | _ => .error .other
 
+/-- `DcdHabSegment.parse`: present iff the IVT has a DCD pointer -/
+def parseDcdSeg (d : Bytes) (ivt : Ivt) : PyRes (List Seg) :=
+  if ivt.dcd ≠ 0 then
+    match parseBlock (d.drop (ivt.dcd - ivt.self)) (some Spec.tagDCD) with
+    | .ok b => .ok [⟨"dcd", ivt.dcd - ivt.self, b⟩]
+    | .error e => .error e
+  else .ok []
+
+/-- `CsfHabSegment.parse` + `HabContainer._get_flags`: present iff the IVT has a CSF pointer -/
+def parseCsfSeg (d : Bytes) (ivt : Ivt) : PyRes (List Seg × Nat) :=
+  if ivt.csf ≠ 0 then
+    match parseCsf (slice d (ivt.csf - ivt.self) HabConsts.csfSize) with
+    | .ok (ver, cc) =>
+      .ok ([⟨"csf", ivt.csf - ivt.self, csfBytes ver cc⟩], if (getAut 2 cc).isSome then 0xC else 0x8)
+    | .error e => .error e
+  else .ok ([], 0)
+
+/-- `AppHabSegment.parse` once the offset is known: up to the CSF, or to the end of the data -/
+def appSeg (d : Bytes) (ivt : Ivt) (aoff : Nat) : Seg :=
+  ⟨"app", aoff, (d.drop aoff).take ((if ivt.csf > 0 then ivt.csf - ivt.self else d.length) - aoff)⟩
+
+def xmcdSegs : Option Bytes → List Seg
+  | some x => [⟨"xmcd", HabConsts.xmcdSegOffset, x⟩]
+  | none => []
+
 /-- `HabContainer.parse`; segments in the order of `SEGMENTS_MAPPING` -/
 def parse (d : Bytes) : PyRes Parsed :=
   match parseIvt d with
   | .error e => .error e
   | .ok ivt =>
-    let bdtOff := ivt.bdt - ivt.self
-    match parseBdt (d.drop bdtOff) with
+    match parseBdt (d.drop (ivt.bdt - ivt.self)) with
     | .error e => .error e
     | .ok bdt =>
-      let dcdR : PyRes (List Seg) :=
-        if ivt.dcd ≠ 0 then
-          match parseBlock (d.drop (ivt.dcd - ivt.self)) (some Spec.tagDCD) with
-          | .ok b => .ok [⟨"dcd", ivt.dcd - ivt.self, b⟩]
-          | .error e => .error e
-        else .ok []
-      match dcdR with
+      match parseDcdSeg d ivt with
       | .error e => .error e
       | .ok dcdS =>
         match parseXmcd d with
         | .error e => .error e
         | .ok xm =>
-          let xmS : List Seg := match xm with | some x => [⟨"xmcd", HabConsts.xmcdSegOffset, x⟩] | none => []
-          let csfR : PyRes (List Seg × Nat) :=
-            if ivt.csf ≠ 0 then
-              match parseCsf (slice d (ivt.csf - ivt.self) HabConsts.csfSize) with
-              | .ok (ver, cc) =>
-                .ok ([⟨"csf", ivt.csf - ivt.self, csfBytes ver cc⟩], if (getAut 2 cc).isSome then 0xC else 0x8)
-              | .error e => .error e
-            else .ok ([], 0)
-          match csfR with
+          match parseCsfSeg d ivt with
           | .error e => .error e
           | .ok (csfS, flags) =>
             match findAppOffset d ivt.entry HabConsts.knownAppOffsets with
             | none => .error .spsdk
             | some aoff =>
-              let aend := if ivt.csf > 0 then ivt.csf - ivt.self else d.length
               .ok { flags := flags, start := bdt.start, ivtOff := (ivt.self : Int) - bdt.start,
-                    segs := [⟨"ivt", 0, ivt.encode⟩, ⟨"bdt", bdtOff, bdt.encode⟩] ++ dcdS ++ xmS ++ csfS ++
-                            [⟨"app", aoff, (d.drop aoff).take (aend - aoff)⟩] }
+                    segs := [⟨"ivt", 0, ivt.encode⟩, ⟨"bdt", ivt.bdt - ivt.self, bdt.encode⟩] ++ dcdS ++ xmcdSegs xm ++
+                            csfS ++ [appSeg d ivt aoff] }
 
 /-! ## what `parse (export c)` has to return -/
 def expectedFlags (c : Cfg) : Nat :=
@@ -599,7 +608,7 @@ def expectedSegs (c : Cfg) (b : Built) : List Seg :=
   let img := exportImage c b
   [⟨"ivt", 0, c.ivt.encode⟩, ⟨"bdt", bdtSegOffN, c.bdt.encode⟩] ++
   (match c.dcd with | some d => [⟨"dcd", dcdSegOffN, d⟩] | none => []) ++
-  (match c.xmcd with | some x => [⟨"xmcd", HabConsts.xmcdSegOffset, x⟩] | none => []) ++
+  xmcdSegs c.xmcd ++
   (if c.hasCsf then [⟨"csf", c.csfOff, csfBytes c.version b.cmds⟩] else []) ++
   [⟨"app", c.appOff, if c.hasCsf then slice img c.appOff (c.csfOff - c.appOff) else b.app⟩]
 
